@@ -30,17 +30,17 @@ QUICK = {
          "c06_bmca_take_best_n01", "c06_bmca_take_best_n2a", "c06_bmca_take_best_n2b"],
  "C07": ["c07_gate_short", "c07_announce_rejected", "c07_slave_messages_in_other_states",
          "c07_foreign_master_registration", "c09_delay_resp"],
- "C08": ["c10_follow_up", "c10_delay_resp", "c10_send_sync", "c11_send_announce", "c12_announce_receipt_timer",
+ "C08": ["c10_follow_up", "c10_delay_resp", "c10_send_sync", "c11_send_announce_pt", "c11_send_announce_nopt", "c12_announce_receipt_timer",
          "c12_delay_request_timer", "c08_kalman_peer_delay_only_never_steers", "c05_bmca_one_port",
          "stub_interval_matches_real"],
  "C09": ["c09_sync", "c09_follow_up", "c09_delay_timestamp", "c09_delay_resp",
          "c03_sync_correction_exceeds_receive_time", "c03_follow_up_negative_correction_exceeds_timestamp"],
  "C10": ["c10_send_sync", "c10_follow_up", "c10_delay_resp", "c10_pdelay_resp", "c10_pdelay_resp_follow_up",
          "c12_delay_request_timer", "stub_interval_matches_real"] + [x for x in C04_ENCODE if x != "c04_encode_announce"],
- "C11": ["c11_send_announce", "c11_handle_announce_slave_no_tlv", "c11_parent_announce_steps_65535", "c05_bmca_one_port",
+ "C11": ["c11_send_announce_pt", "c11_send_announce_nopt", "c11_handle_announce_slave_no_tlv", "c11_parent_announce_steps_65535", "c05_bmca_one_port",
          "c04_encode_announce", "stub_interval_matches_real"],
  "C12": ["c12_announce_receipt_timer", "c12_delay_request_timer", "c12_filter_update_timer", "c12_announce_duration_real",
-         "c12_new_port_base_case", "c12_faulty_recovery_requests_receipt_timer", "c10_send_sync", "c11_send_announce",
+         "c12_new_port_base_case", "c12_faulty_recovery_requests_receipt_timer", "c10_send_sync", "c11_send_announce_pt", "c11_send_announce_nopt",
          "c05_bmca_one_port", "stub_interval_matches_real"],
  "C13": ["c13_basic_filter_finite", "c13_basic_filter_equal_event_times", "c13_change_frequency_est_pos",
          "c13_change_frequency_est_neg", "c13_change_frequency_noest_pos", "c13_change_frequency_noest_neg",
@@ -49,7 +49,7 @@ QUICK = {
  "C14": ["c14_pdelay_resp", "c14_pdelay_resp_follow_up", "c14_pdelay_timestamp", "c10_pdelay_resp",
          "c10_pdelay_resp_follow_up", "c12_delay_request_timer", "c12_faulty_recovery_requests_receipt_timer",
          "c04_encode_pdelay_req"],
- "C15": ["c11_send_announce", "c15_forward_any_lengths",
+ "C15": ["c11_send_announce_pt", "c11_send_announce_nopt", "c15_forward_any_lengths",
          "c15_tlv_builder_readback", "stub_interval_matches_real"],
  "C16": ["c16_k_add_sub_roundtrip", "c16_k_wire_and_interval"],
  "C17": ["c10_follow_up", "c12_announce_receipt_timer", "c12_delay_request_timer", "c09_delay_timestamp",
